@@ -948,7 +948,64 @@ def c19_pair(seed):
         b.init(insts[p])
         builders[p] = b
     steps = []
+    pending = None
+
+    def ac_step(a, answer):
+        """One AC status frame on both generations; the console answers the error-information request at
+        once (answer=True) or not yet (the frames it will send later are returned)."""
+        f4 = C.from_console("at4", 0x2D, C.at4_ac_status([a["status"]]))
+        f5 = C.from_console("at5", 0xC0, C.at5_ac_status([dict(a["status"], sp=a["status"]["sp"] * 10 - 100)]))
+        pid = rng.randrange(256)
+        later = {}
+        for p, f in (("at4", f4), ("at5", f5)):
+            builders[p].op(op="feed", b=f, tag="status")
+            builders[p].op(op="quiesce")
+            builders[p].op(op="snapshot", tag="pair")        # what the application sees before the answer
+            replies = {str(x["n"]): C.from_console(p, 0x1F, C.error_info(x["n"], b"ER %d" % x["status"].get("err", 0)), pid=pid)
+                       for x in inst4["acs"] if x["status"].get("err", 0)}
+            if answer:
+                builders[p].op(op="answer_errinfo", replies=replies)
+                builders[p].op(op="quiesce")
+                builders[p].op(op="snapshot", tag="pair")
+            later[p] = [replies[k] for k in sorted(replies)]
+        return later
+
+    def late(frames):
+        for p in ("at4", "at5"):
+            for f in frames[p]:
+                builders[p].op(op="feed", b=f, tag="late_errinfo")
+            builders[p].op(op="quiesce")
+            builders[p].op(op="snapshot", tag="pair")
+
+    if rng.random() < 0.3:
+        # the life of an error whose description arrives late: error A - (cleared before the console
+        # answers) - the answer - (an ordinary change) - error B, looked at before B's answer comes
+        a = rng.choice(inst4["acs"])
+        ea, eb = rng.sample([5, 7, 11, 0xFFFE], 2)
+        a["status"] = dict(a["status"], err=ea)
+        fr = ac_step(a, answer=False)
+        if rng.random() < 0.7:
+            a["status"] = dict(a["status"], err=0)
+            ac_step(a, answer=True)
+        late(fr)
+        if rng.random() < 0.7:
+            a["status"] = dict(a["status"], err=0, temp_raw=600 + rng.randrange(250))
+            ac_step(a, answer=True)
+        a["status"] = dict(a["status"], err=eb)
+        fr = ac_step(a, answer=False)
+        if rng.random() < 0.5:
+            late(fr)
+        steps.append("error_story")
     for _ in range(rng.randrange(8, 20)):
+        if pending is not None and rng.random() < 0.6:
+            # the slow console answers now what it was asked a while ago - whatever the unit reports by now
+            for p in ("at4", "at5"):
+                for f in pending[p]:
+                    builders[p].op(op="feed", b=f, tag="late_errinfo")
+                builders[p].op(op="quiesce")
+                builders[p].op(op="snapshot", tag="pair")
+            pending = None
+            steps.append("late_errinfo")
         if rng.random() < 0.45:
             # a status change expressible in both generations
             a = rng.choice(inst4["acs"])
@@ -968,15 +1025,22 @@ def c19_pair(seed):
                 f4 = C.from_console("at4", 0x2B, C.at4_group_status([st]))
                 st5 = dict(st, sp=(st["sp"] * 10 - 100) if st["sensor"] else 0xFF, temp_raw=st["temp_raw"] if st["sensor"] else 0x7FF)
                 f5 = C.from_console("at5", 0xC0, C.at5_zone_status([st5]))
+            slow = pending is None and rng.random() < 0.3 and any(x["status"].get("err", 0) for x in inst4["acs"])
+            pid = rng.randrange(256)
+            if slow:
+                pending = {}
             for p, f in (("at4", f4), ("at5", f5)):
                 builders[p].op(op="feed", b=f, tag="status")
                 builders[p].op(op="quiesce")
                 # the console answers whatever error-information requests the client issued, with the
-                # text of the code each AC currently reports
-                replies = {str(x["n"]): C.from_console(p, 0x1F, C.error_info(x["n"], b"ER %d" % x["status"].get("err", 0)), pid=rng.randrange(256))
+                # text of the code each AC currently reports - at once, or (a slow console) some steps later
+                replies = {str(x["n"]): C.from_console(p, 0x1F, C.error_info(x["n"], b"ER %d" % x["status"].get("err", 0)), pid=pid)
                            for x in inst4["acs"] if x["status"].get("err", 0)}
-                builders[p].op(op="answer_errinfo", replies=replies)
-                builders[p].op(op="quiesce")
+                if slow:
+                    pending[p] = [replies[k] for k in sorted(replies)]
+                else:
+                    builders[p].op(op="answer_errinfo", replies=replies)
+                    builders[p].op(op="quiesce")
                 builders[p].op(op="snapshot", tag="pair")
             steps.append("status")
         else:
